@@ -133,6 +133,9 @@ pub enum Ev {
     CCall { name: usize, ctx: usize },
     /// a valid definition whose closure raises an error on every call
     CDefErr { name: usize, ctx: usize },
+    /// the registration frame of the context is removed (its frames stay in the store): whatever
+    /// lived in it cannot come back, everything else must
+    CtxRemove { ctx: usize },
 }
 
 const HN: [&str; 2] = ["ha", "hb"];
@@ -156,6 +159,7 @@ struct Model {
     cmds: BTreeMap<(usize, usize), (Scru128Id, String)>,
     old_triggers: Vec<Scru128Id>,
     old_calls: Vec<Scru128Id>,
+    dead_ctx: Vec<usize>,
 }
 
 pub fn run_history(h: &[Ev], restart_after: usize, sig: &str) -> (Vec<F>, String) {
@@ -245,6 +249,17 @@ pub fn run_history_t(h: &[Ev], restart_after: usize, sig: &str, tail: &[Ev]) -> 
             };
             let f = r.append(&format!("{}.define", CN[*name]), Some(ctxs[*ctx]), Some(&format!("{{run: {{|frame| \"{}\"}}}}", tag)), None);
             m.cmds.insert((*ctx, *name), (f.id, tag));
+        }
+        Ev::CtxRemove { ctx } => {
+            let r0 = crate::http::once(&r.sock, &Req::new("DELETE", &format!("/{}", ctxs[*ctx])));
+            if r0.status / 100 != 2 {
+                fs.push(F { kind: "c17.harness".into(), msg: format!("DELETE of the context registration answered {}", r0.status) });
+            }
+            m.handlers.retain(|k, _| k.0 != *ctx);
+            m.gens.retain(|k, _| k.0 != *ctx);
+            m.finite.retain(|k, _| k.0 != *ctx);
+            m.cmds.retain(|k, _| k.0 != *ctx);
+            m.dead_ctx.push(*ctx);
         }
         Ev::CDefErr { name, ctx } => {
             let f = r.append(&format!("{}.define", CN[*name]), Some(ctxs[*ctx]), Some("{run: {|frame| error make {msg: \"boom\"}}}"), None);
@@ -378,6 +393,9 @@ pub fn run_history_t(h: &[Ev], restart_after: usize, sig: &str, tail: &[Ev]) -> 
     }
     // behavioural probes
     for (ci, c) in ctxs.iter().enumerate() {
+        if m.dead_ctx.contains(&ci) {
+            continue;
+        }
         let ping = r2.append("ping2", Some(*c), None, None);
         for (k, id) in m.handlers.iter().filter(|(k, _)| k.0 == ci) {
             if r2.wait(|x| x.topic == format!("{}.out", HN[k.1]) && meta_str(x, "frame_id") == Some(ping.id.to_string()) && meta_str(x, "handler_id") == Some(id.to_string()), 10.0).is_none() {
@@ -518,6 +536,9 @@ pub fn histories(thorough: bool) -> Vec<Vec<Ev>> {
         vec![CDef { name: 0, ctx: 0 }, CDefBad { name: 0, ctx: 0 }, CDef { name: 1, ctx: 1 }, CCall { name: 0, ctx: 0 }],
         vec![CDef { name: 0, ctx: 0 }, CDefSame { name: 0, ctx: 0 }, CCall { name: 0, ctx: 0 }],
         vec![CDefErr { name: 0, ctx: 0 }, CCall { name: 0, ctx: 0 }],
+        vec![GSpawn { name: 0, ctx: 1 }, HReg { name: 0, ctx: 0 }, CDef { name: 0, ctx: 0 }, CtxRemove { ctx: 1 }],
+        vec![HReg { name: 0, ctx: 1 }, GSpawn { name: 0, ctx: 0 }, CDef { name: 0, ctx: 1 }, CtxRemove { ctx: 1 }],
+        vec![GSpawnFinite { name: 0, ctx: 1 }, GSpawn { name: 1, ctx: 0 }, CtxRemove { ctx: 1 }],
         vec![CDef { name: 0, ctx: 0 }, CDefErr { name: 0, ctx: 0 }, CCall { name: 0, ctx: 0 }, CDef { name: 0, ctx: 1 }],
         vec![CDefErr { name: 0, ctx: 1 }, CCall { name: 0, ctx: 1 }, CDef { name: 0, ctx: 1 }, CCall { name: 0, ctx: 1 }],
         vec![CDef { name: 0, ctx: 0 }, CDef { name: 0, ctx: 1 }, CDefSame { name: 0, ctx: 0 }, CDefSame { name: 0, ctx: 1 }],
